@@ -300,7 +300,7 @@ func tryGetRedumpKey(fsys afero.Fs, requestedPath string) ([]byte, error) {
 	}
 
 	// try .dkey file first
-	keyFile, err := fsys.Open(strings.TrimSuffix(requestedPath, ext) + dkeyExt)
+	keyFile, err := openForRead(fsys, strings.TrimSuffix(requestedPath, ext)+dkeyExt)
 	if err == nil {
 		defer keyFile.Close()
 		return ReadKeyFile(keyFile)
@@ -313,7 +313,7 @@ func tryGetRedumpKey(fsys afero.Fs, requestedPath string) ([]byte, error) {
 	// try .dkey in REDKEY directory (instead of PS3ISO)
 	pathElems[ps3IsoIdx] = redkeyDir
 	pathElems[len(pathElems)-1] = strings.TrimSuffix(pathElems[len(pathElems)-1], ext) + dkeyExt
-	keyFile, err = fsys.Open(filepath.Join(pathElems...))
+	keyFile, err = openForRead(fsys, filepath.Join(pathElems...))
 	if err == nil {
 		defer keyFile.Close()
 		return ReadKeyFile(keyFile)
